@@ -69,6 +69,32 @@ func CheckCell(raw []byte, typ byte, meta uint16, unsigned bool, want []byte) st
 	if why := CheckCellAtEnd(raw, typ, meta, unsigned, want); why != "" {
 		return why
 	}
+	return CheckOwned(raw, typ, meta, unsigned, want)
+}
+
+// CheckOwned: the caller owns what CellBytes returned. The text of one decode
+// is overwritten over its whole capacity (a consumer that masks or completes a
+// value in place, or appends to it), then the same cell is decoded again from a
+// fresh buffer: it must read as before (a result that is a window on a table
+// or constant of the decoder changes every later decode of that value).
+func CheckOwned(raw []byte, typ byte, meta uint16, unsigned bool, want []byte) string {
+	first, _, err, pan := Cell(raw, 0, typ, meta, unsigned)
+	if pan != "" || err != nil {
+		return ""
+	}
+	full := first[:cap(first)]
+	for i := range full {
+		full[i] = 0xA5
+	}
+	again, _, err, pan := Cell(raw, 0, typ, meta, unsigned)
+	switch {
+	case pan != "":
+		return "panic when the cell is decoded again after an earlier result was overwritten by its owner: " + pan
+	case err != nil:
+		return "error when the cell is decoded again after an earlier result was overwritten by its owner: " + err.Error()
+	case !bytes.Equal(again, want):
+		return fmt.Sprintf("decoded %q after the owner of an earlier result overwrote it (expected %q): results are windows on memory the decoder keeps using", Clip(again), Clip(want))
+	}
 	return ""
 }
 
